@@ -276,5 +276,8 @@ class ZMQEventLoop(EventLoop):
                 self._did_something = True
 
         for queue in ready:
-            self._queue_callbacks[queue]()
+            callback = self._queue_callbacks.get(queue)
+            if callback is None:
+                continue  # the watch was removed by an earlier callback of this pass
+            callback()
             self._did_something = True
